@@ -1,0 +1,12 @@
+//go:build verif
+
+// Contracts for the exovc verification-condition generator (see /verif/DESIGN.md).
+// Comment-only file: it adds nothing to the build.
+
+package types
+
+// Decoding of an undelegation record key join(operator, hex(height), hex(nonce), txhash): the fields returned are
+// the ones the key was built from (assumed: strings.Split / hexutil.DecodeUint64 invert strings.Join / EncodeUint64).
+//@ func ParseUndelegationRecordKey
+//@   flag assumed
+//@   ensures err == nil ==> field != nil && field.BlockHeight == urkey_height(key) && field.LzNonce == urkey_nonce(key)
